@@ -8,8 +8,10 @@ os.makedirs(dst, exist_ok=True)
 for f in ("patch.diff", "demo.py"):
     shutil.copy(os.path.join(src, f), os.path.join(dst, f))
 meta = json.load(open(os.path.join(src, "meta.json")))
+meta["property"] = pid[:3]
 conf = {}
-for log in ("/tmp/confirm_batch1.log", "/tmp/confirm_batch2.log", "/tmp/confirm_batch3.log"):
+import glob
+for log in sorted(glob.glob("/tmp/confirm_*.log")):
     if os.path.exists(log):
         txt = open(log).read()
         m = re.search(r"== %s\n(.*?)(?=\n== |\Z)" % pid, txt, re.S)
